@@ -15,7 +15,7 @@ check("C10",
  "DESIGN.md §4 C10, §3.2")
 check("C08",
  "interprocedural interval + stream-taint (abstract interpretation over SSA) on panic-capable integer operations",
- "Decides the listed panic classes only: over every function reachable from a decoding entry point, each fixed-size-array index, integer divisor, make size, signed shift count, comma-less type assertion and explicit panic is an obligation. 'Discharged' is a sound over-approximation in the interval/known-bits domain; 'violated' is reported only on a witness shape (stream-tainted operand that is exactly out of range, has no limit applied at all, or is a never-compared field still holding its zero value); the rest is counted out-of-scope. Four slice shapes that need no relation between variables are decided as well (constant index/bound without any dominating length test; s[a:a+n] with a possibly negative exact n; s[len(s)-k] with less than k established along the call chain to an exported entry point; s[a:b] whose stream-derived bounds are never compared). Other slice/string bounds, nil dereference and stack depth are NOT decided, so a clean run does not imply C08; a violation refutes it.",
+ "Decides the listed panic classes only: over every function reachable from a decoding entry point, each fixed-size-array index, integer divisor, make size, signed shift count, comma-less type assertion and explicit panic is an obligation. 'Discharged' is a sound over-approximation in the interval/known-bits domain; 'violated' is reported only on a witness shape (stream-tainted operand that is exactly out of range, has no limit applied at all, or is a never-compared field still holding its zero value); the rest is counted out-of-scope. Four slice shapes that need no relation between variables are decided as well (constant index/bound without any dominating length test; s[a:a+n] with a possibly negative exact n, or an n that is the difference of two stream-derived stored quantities which no branch in the library ever compares; s[len(s)-k] with less than k established along the call chain to an exported entry point; s[a:b] whose stream-derived bounds are never compared). Other slice/string bounds, nil dereference and stack depth are NOT decided, so a clean run does not imply C08; a violation refutes it.",
  "trusted: go/ssa, VTA call graph, points-to closure deciding which byte buffers hold stream data, field/element summaries with exit-refined stores (assumes parse errors are propagated and the object dropped)",
  "DESIGN.md §4 C08, §3.3")
 check("C17",
